@@ -7,6 +7,7 @@ import importlib
 import json
 import os
 import sys
+import time
 import traceback
 
 from .index import AnalysisError, get_index
@@ -25,12 +26,16 @@ def main(argv):
     prop = args.pop(0)
     tier = os.environ.get('VERIF_TIER', 'quick')
     replay = None
+    write = True
+    t_start = time.time()
     while args:
         a = args.pop(0)
         if a == '--tier':
             tier = args.pop(0)
         elif a == '--replay':
             replay = args.pop(0)
+        elif a == '--no-write':
+            write = False
         else:
             print('ANALYSIS-ERROR property=%s unknown argument %s' % (prop, a))
             return 2
@@ -49,6 +54,7 @@ def main(argv):
             return 2
         ix = get_index(repo)
         run = Run(prop, tier=tier, seed=seed, repo=repo)
+        run.t0 = t_start
         mod.run(run, ix, tier)
         if replay:
             with open(replay) as fh:
@@ -63,9 +69,15 @@ def main(argv):
                 return 1
             print('OK property=%s replayed obligation no longer fails: %s' % (prop, want.get('key')))
             return 0
-        code = run.finish()
-        if code == 0 and tier == 'thorough' and hasattr(mod, 'thorough_extra'):
-            code = mod.thorough_extra(run, ix) or 0
+        code = run.finish(write=write)
+        if code == 0 and tier == 'thorough' and write:
+            # checker self-validation on seeded variants of the repo (scratch
+            # copies under the system temp dir, removed before returning)
+            from . import selftest
+            rc = selftest.main([prop])
+            if rc != 0:
+                print('ANALYSIS-ERROR property=%s checker self-validation failed' % prop)
+                return 2
         return code
     except AnalysisError as e:
         print('ANALYSIS-ERROR property=%s %s' % (prop, e))
